@@ -252,8 +252,19 @@ def make_env(c, wellformed=True):
     c.assume(env.fac("InertiaMoment", st["Jeq_unit"]) > 0)
     c.assume(env.fac("Time", st["tlast_unit"]) > 0)
     c.assume(env.fac("Current", st["cur_unit"]) > 0)
-    solver = object.__new__(SolverCls())
-    solver._Solver__powertrain = AM.AbsPowertrain(env)
+    # the stand-in solver is built by the REAL constructor (so that whatever it initialises exists); its two state
+    # attributes are then set to the arbitrary pre-state the method contracts quantify over
+    pt = AM.AbsPowertrain(env)
+    solver = None
+    if wellformed:
+        st_, r_ = H.call(SolverCls(), pt)
+        if st_ == "ok":
+            solver = r_
+        else:
+            raise sym.PathEnd()         # the constructor rejects only malformed powertrains (Solver.__init__ job)
+    if solver is None:
+        solver = object.__new__(SolverCls())
+        solver._Solver__powertrain = pt
     sync_to_solver(env, solver)
     env.solver = solver
     return env, solver
